@@ -219,6 +219,7 @@ def run(ctx: Ctx) -> None:
 G = "cartgraph/graph.py"
 R = "plugins/runner.py"
 MUTANTS = [
+    ("worker-params-copied", "cartgraph/worker.py", "        return self.net.params\n", "        return self.net.params.copy()\n", "8p"),
     ("all-worker-params-copied", NODE, "                            if not key.startswith(\"nets_\"):\n                                continue\n", "", "6"),
     ("params-from-any-worker", NODE, "                    if worker.id == wid:\n                        source_suffix", "                    if worker.id != \"\":\n                        source_suffix", "6"),
     ("foreign-worker-may-run", NODE, "        elif worker.id not in self.params[\"name\"]:\n            raise RuntimeError(f\"Worker {worker.id} should not try to run {self}\")\n", "", "2r"),
